@@ -301,6 +301,56 @@ func ZzvC10Budget() {
 	zzverif.Reach("end")
 }
 
+// ---- H4: quota mode -----------------------------------------------------------------------
+
+type zzvQuotaReader struct {
+	resourceexecutor.CgroupReader
+	current int64
+}
+
+func (r *zzvQuotaReader) ReadCPUQuota(parentDir string) (int64, error) { return r.current, nil }
+
+type zzvExecutor struct {
+	resourceexecutor.ResourceUpdateExecutor
+	written []string
+}
+
+func (e *zzvExecutor) Update(cacheable bool, u resourceexecutor.ResourceUpdater) (bool, error) {
+	e.written = append(e.written, u.Value())
+	return true, nil
+}
+
+// ZzvC10Quota: adjustByCfsQuota with a symbolic budget and a symbolic current quota: what is written is
+// the budget times the CFS period (100 ms) floored by the minimum quota, except that growth is limited to
+// 10% of the node per round once a quota is set and that changes below 1% of the node may be skipped.
+func ZzvC10Quota() {
+	cores := []int64{2, 8, 64}[zzverif.Choice("capacityCores", 3)]
+	node := &corev1.Node{ObjectMeta: metav1.ObjectMeta{Name: "n"}}
+	node.Status.Capacity = corev1.ResourceList{corev1.ResourceCPU: *resource.NewQuantity(cores, resource.DecimalSI)}
+	budget := zzverif.Int64("budgetMilli", 0, 64000)
+	current := zzverif.Int64("currentQuota", -1, 6400000)
+	zzverif.Assume(current != 0)
+	ex := &zzvExecutor{}
+	r := &CPUSuppress{cgroupReader: &zzvQuotaReader{current: current}, executor: ex}
+	r.adjustByCfsQuota(resource.NewMilliQuantity(budget, resource.DecimalSI), node)
+	target := zzverif.MaxInt64(budget*100, 2000) // milli * 100000 us / 1000, floored by beMinQuota
+	step := cores * 10000                         // 10% of the node per round
+	bypass := cores * 1000                        // changes below 1% of the node may be skipped
+	zzverif.Assert(len(ex.written) <= 1, "at most one quota write per round")
+	if len(ex.written) == 1 {
+		v, err := strconv.ParseInt(ex.written[0], 10, 64)
+		zzverif.Assert(err == nil, "the written quota is a decimal integer")
+		limited := zzverif.And(current != -1, target-current > step)
+		zzverif.Assert(zzverif.Implies(!limited, v == target), "the quota equals the budget times the CFS period, floored by the minimum quota")
+		zzverif.Assert(zzverif.Implies(limited, v == current+step), "growth of a quota that is already set is limited to the step per round")
+		zzverif.Assert(v >= 2000, "the quota is never below the minimum quota")
+	} else {
+		diff := target - current
+		zzverif.Assert(zzverif.And(zzverif.And(diff < bypass, -diff < bypass), target != 2000), "the write is skipped only for a change below the bypass delta that does not go to the minimum quota")
+	}
+	zzverif.Reach("end")
+}
+
 // ZzvC10Twin: must-fail twin (claims the policy always returns an even number of CPUs).
 func ZzvC10Twin() {
 	want := zzverif.Int32("cpus", 0, 4)
